@@ -342,10 +342,15 @@ def export(
     SourceBackend: type[TableImpl] = table._cache.backend
     if schema_overrides is None:
         schema_overrides = dict()
+    # the columns of the cloned tree have new UUIDs
+    ast, _, uuid_map = table._ast._clone()
     return SourceBackend.export(
-        table._ast.clone(),
+        ast,
         target,
-        schema_overrides={table[col_name]._uuid: dtype for col_name, dtype in schema_overrides.items()},
+        schema_overrides={
+            uuid_map.get(table[col_name]._uuid, table[col_name]._uuid): dtype
+            for col_name, dtype in schema_overrides.items()
+        },
     )
 
 
